@@ -55,6 +55,7 @@ func parseGroups(doc *yaml.Node, schema Schema, offsetLine, offsetColumn int, co
 			}
 		}
 
+		var hasGroups bool
 		for _, entry := range mappingNodes(node) {
 			if entry.key.ShortTag() != strTag {
 				return nil, ParseError{
@@ -68,6 +69,13 @@ func parseGroups(doc *yaml.Node, schema Schema, offsetLine, offsetColumn int, co
 					Err:  fmt.Errorf("unexpected key %s", entry.key.Value),
 				}
 			}
+			if hasGroups {
+				return nil, ParseError{
+					Line: entry.key.Line,
+					Err:  fmt.Errorf("duplicated key %s", entry.key.Value),
+				}
+			}
+			hasGroups = true
 			if !isTag(entry.val.ShortTag(), seqTag) {
 				return nil, ParseError{
 					Line: entry.key.Line,
